@@ -22,6 +22,13 @@ Theorem C19_encode_layout : forall (m : bool) (r l : N), r < 2^32 -> l < 2^32 ->
   encode m r l = (if m then 2^64 else r * 2^32) + l.
 Proof. exact encode_layout. Qed.
 
+(* no two claim positions share a global index: well-formed triples with the same composed value have the same flag and
+   leaf index and, off mainnet, the same rollup index *)
+Theorem C19_encode_injective : forall (m1 : bool) (r1 l1 : N) (m2 : bool) (r2 l2 : N),
+  r1 < 2^32 -> l1 < 2^32 -> r2 < 2^32 -> l2 < 2^32 ->
+  encode m1 r1 l1 = encode m2 r2 l2 -> m1 = m2 /\ l1 = l2 /\ (m1 = false -> r1 = r2).
+Proof. exact encode_injective. Qed.
+
 (* what the decoder does on ANY 256-bit on-chain value *)
 Theorem C19_decode_closed_form : forall v, v < 2^256 ->
   decode v = ((2^64 <=? v) && (v <? 2^72), (v / 2^32) mod 2^32, v mod 2^32).
@@ -70,6 +77,7 @@ Proof. repeat split; try (right; split; vm_compute; congruence); try (left; vm_c
 
 Print Assumptions C19_decode_encode.
 Print Assumptions C19_encode_layout.
+Print Assumptions C19_encode_injective.
 Print Assumptions C19_decode_closed_form.
 Print Assumptions C19_encode_decode_canonical.
 Print Assumptions C19_consumers_agree.
